@@ -254,7 +254,7 @@ class Conn:
                 return
             if isinstance(bits, tuple) and bits[0] == 'stall':
                 return
-            pnum = bits[1] if isinstance(bits, tuple) else ((1 << (bits - 1)) | 0x17)
+            pnum = bits[1] if isinstance(bits, tuple) else ((1 << (bits - 1)) | (0x17 if bits > 5 else 1))
             self.push(pkt(bytes([31]) + mpint(pnum) + mpint(2)))
         elif t == 32:
             hk = self.client_kex.key_algorithms[0] if self.client_kex else None
